@@ -92,8 +92,12 @@ TRUSTED_BASE = [
 ASSUMPTIONS = ["class __bases__ are never reassigned; interface __bases__ are not changed during a history",
                "a class declares another class's specification only if that class was created before it "
                "(declaring a subclass's specification makes the specification graph cyclic; the real code recurses)",
-               "unbound proxies super(C) are queried but not adapted (see the report: adapting one corrupts the "
-               "shared empty declaration on the next registry change)"]
+               "re-basing a class (K.__bases__ = ...) is not a declaration change and lies outside the quantifier: "
+               "implementedBy(K) is not notified, keeps the specifications of the old bases, and cached super "
+               "specifications keep the old remainder of the MRO (replay: corpus/C19/class_rebase_outside_quantifier.py); "
+               "not generated, not judged",
+               "subscribers() hands the objects over as they are (no unwrapping in adapter.py); it is exercised on "
+               "instance-bound proxies by the shared registry stream only"]
 
 
 # --------------------------------------------------------------------------- generator
@@ -320,10 +324,8 @@ def gen_case(rng, tier):
                 r_ = rng.random()
                 if r_ < 0.25:
                     return ["superc", cc_, objects[j_][0]]          # bound to the class object
-                # (unbound proxies are never adapted here: a registry lookup with the shared empty
-                #  declaration as required specification corrupts that process-wide singleton on the
-                #  next registry change -- _ImmutableDeclaration.weakref() returns the class, and calling
-                #  it re-runs __init__ -- which would leak into every later case of the run)
+                if r_ < 0.33:
+                    return ["unbound", cc_]                         # stands for no object at all
                 return ["super", cc_, j_]
             if len(req) == 1:
                 via = rng.choice(["qa", "hook", "multi"])
@@ -339,6 +341,12 @@ def gen_case(rng, tier):
             if rng.random() < 0.5:
                 # the same adaptation again, nothing changed in between: the registry answers from its cache
                 ops.append(json.loads(json.dumps(ops[-1])))
+            elif rng.random() < 0.4:
+                # ... or after the registry changed (its lookup caches are flushed and the specifications
+                # it had subscribed to - the shared empty declaration among them - are let go)
+                again = json.loads(json.dumps(ops[-1]))
+                regs.append(reg())
+                ops.append(again)
 
     def change():
         j = rng.randrange(len(objects))
@@ -421,10 +429,10 @@ def gen_reg_case(rng):
             continue
         world["ops"] = RC.gen_history(
             rng, world, ifaces, classes, n_ops=rng.choice([12, 20]), n_regs=rng.choice([1, 1, 2]), rebase=False,
-            weights={"register": 8, "unregister": 1, "subscribe": 0.5, "unsubscribe": 0.2, "rebuild": 0.1,
+            weights={"register": 8, "unregister": 1, "subscribe": 3, "unsubscribe": 0.3, "rebuild": 0.1,
                      "lookup": 1, "lookup1": 0.5, "lookupAll": 0.5, "names": 0.2, "subscriptions": 0.3,
                      "registered": 0.2, "subscribed": 0.1, "allRegistrations": 0.1, "allSubscriptions": 0.1,
-                     "queryAdapter": 5, "adapter_hook": 4, "queryMultiAdapter": 4, "subscribers": 0.5})
+                     "queryAdapter": 5, "adapter_hook": 4, "queryMultiAdapter": 4, "subscribers": 3})
         world["kind"] = "reg"
         return world
     raise C.HarnessError("could not generate a registry world with super proxies")
